@@ -195,7 +195,7 @@ def run_in_fresh_thread(fn, *args):
             box['result'] = fn(*args)
         except BaseException as e:
             box['error'] = e
-    old = threading.stack_size(512 * 1024 * 1024)
+    old = threading.stack_size(128 * 1024 * 1024)
     try:
         t = threading.Thread(target=target)
         t.start()
@@ -224,13 +224,19 @@ def run_forked(fn, arg, wall_cap=None):
             try:
                 out = fn(arg)
             except BaseException:
+                sys.setrecursionlimit(20000)        # the run may have died with a lowered limit in force
                 out = {'harness_error': traceback.format_exc()}
             data = json.dumps(out).encode()
             off = 0
             while off < len(data):
                 off += os.write(w, data[off:off + 65536])
-        except BaseException:
+        except BaseException as e:
             code = 3
+            try:
+                sys.setrecursionlimit(20000)
+                os.write(w, json.dumps({'harness_error': 'child failed outside the run: %r' % (e,)}).encode())
+            except BaseException:
+                pass
         finally:
             os._exit(code)
     os.close(w)
@@ -365,6 +371,16 @@ def run_seed_forked(mod, seed, tier):
     machine was merely slow; same digest, the tracer does not touch the log) or it ends
     in the deterministic violation no-progress, which replays."""
     res = run_forked(_exec_seed, (mod, seed, tier), getattr(mod, 'WALL_CAP_S', FIRST_WALL_CAP_S))
+    if 'harness_error' in res and not res.get('child_signal'):
+        # A run is a pure function of its plan; a failure of the harness process itself (e.g. the OS refusing
+        # a thread or memory under load) is retried once.  A deterministic harness bug fails again and is reported.
+        first = res['harness_error']
+        res = run_forked(_exec_seed, (mod, seed, tier), getattr(mod, 'WALL_CAP_S', FIRST_WALL_CAP_S))
+        if 'harness_error' in res:
+            res['harness_error'] = 'twice: %s || %s' % (str(first)[-700:], str(res['harness_error'])[-700:])
+        elif 'counters' in res:
+            res['counters']['harness_retries'] = 1
+            sys.stderr.write('ypsim: run with seed %d was retried after: %s\n' % (seed, str(first)[-300:]))
     if 'harness_timeout' in res and not getattr(mod, 'NO_RERUN', False):
         extra = {'_line_budget': NO_PROGRESS_LINES}
         res = run_forked(_exec_seed, (mod, seed, tier, extra), 120)
@@ -620,7 +636,10 @@ def validate_evidence(ev):
 
 
 def write_evidence(prop, ev):
-    d = os.path.join(VERIF_DIR, 'evidence')
+    validate_evidence(ev)
+    if os.path.abspath(REPO) != '/repo' and not os.environ.get('YPSIM_EVIDENCE_DIR'):
+        return      # a run against a scratch copy (mutants, seeded changes) must not overwrite the evidence about /repo
+    d = os.environ.get('YPSIM_EVIDENCE_DIR') or os.path.join(VERIF_DIR, 'evidence')
     os.makedirs(d, exist_ok=True)
     validate_evidence(ev)
     tmp = os.path.join(d, '.%s.json.tmp' % prop)
